@@ -130,6 +130,33 @@ func (tc *TypeChecker) CheckType(value interface{}, expectedType Type) error {
 		return nil
 	}
 
+	// A wrapper type is satisfied through its members, by the value and not
+	// only by the value's runtime type: comparing runtime types alone let any
+	// object pass for `Addr?` or `Addr | str` without its fields ever being
+	// checked, and refused the JSON integer 5 (a float64) for `int?` and
+	// `int | str`.
+	switch et := expectedType.(type) {
+	case OptionalType:
+		if err := tc.CheckType(value, et.InnerType); err != nil {
+			return tc.mismatchOr(value, expectedType, err)
+		}
+		return nil
+	case UnionType:
+		if len(et.Types) > 0 {
+			var memberErr error
+			for _, member := range et.Types {
+				err := tc.CheckType(value, member)
+				if err == nil {
+					return nil
+				}
+				if memberErr == nil {
+					memberErr = err
+				}
+			}
+			return tc.mismatchOr(value, expectedType, memberErr)
+		}
+	}
+
 	// JSON has a single number type, so every number in a request body decodes
 	// to float64. Without this, an `int` field rejects the perfectly ordinary
 	// body {"id": 1} with "expected int, got float". A value with a fractional
@@ -164,6 +191,19 @@ func (tc *TypeChecker) CheckType(value interface{}, expectedType Type) error {
 		}
 	}
 
+	// List[T] is the other spelling of [T]: its elements are checked too
+	if generic, ok := expectedType.(GenericType); ok && len(generic.TypeArgs) == 1 {
+		if named, ok := generic.BaseType.(NamedType); ok && named.Name == "List" {
+			if arr, ok := value.([]interface{}); ok {
+				for i, elem := range arr {
+					if err := tc.CheckType(elem, generic.TypeArgs[0]); err != nil {
+						return fmt.Errorf("array element %d: %v", i, err)
+					}
+				}
+			}
+		}
+	}
+
 	// For named types, validate against TypeDef if it exists
 	if namedType, ok := expectedType.(NamedType); ok {
 		if typeDef, exists := tc.typeDefs[namedType.Name]; exists {
@@ -174,6 +214,18 @@ func (tc *TypeChecker) CheckType(value interface{}, expectedType Type) error {
 	}
 
 	return nil
+}
+
+// mismatchOr reports a value that fits no member of a wrapper type: as a type
+// mismatch against the wrapper when already the runtime type rules it out,
+// otherwise with the member's own error (a field of a nested object, an
+// element of a list).
+func (tc *TypeChecker) mismatchOr(value interface{}, expectedType Type, memberErr error) error {
+	if actualType := GetRuntimeType(value); actualType != nil && !tc.TypesCompatible(actualType, expectedType) {
+		return fmt.Errorf("type mismatch: expected %s, got %s",
+			tc.TypeToString(expectedType), tc.TypeToString(actualType))
+	}
+	return memberErr
 }
 
 // TypesCompatible checks if two types are compatible
